@@ -443,6 +443,14 @@ class JModel:
     def expand(self, page: str) -> Tuple[List[OutRec], List[LitRec]]:
         if page not in self.templates:
             raise AnalysisError(f"template {page} not found")
+        # memoised per model and per typing configuration (the class-level tables set by setup_types)
+        key = (page, tuple(tuple(sorted(getattr(JModel, a, None) or ())) for a in
+                           ("ENTITY_LIST_ATTRS", "ENTITY_ATTRS", "LINKSTR_ATTRS", "PROJECT_LISTS")),
+               tuple(sorted((getattr(JModel, "ROOT_TYPES", None) or {}).items())))
+        memo = self.__dict__.setdefault("_expand_memo", {})
+        if key in memo:
+            outs, lits = memo[key]
+            return list(outs), list(lits)
         w = _Walker(self, page=page, inline=True)
         chain = [page]
         while chain[-1] in self.extends:
@@ -454,7 +462,8 @@ class JModel:
         st = HtmlState()
         # top-level statements of the child outside blocks (imports, set) are executed too
         w.walk_nodes(self.templates[root].body, root, {}, [], [], [], st)
-        return w.outs, w.lits
+        memo[key] = (w.outs, w.lits)
+        return list(w.outs), list(w.lits)
 
     def macro_callers(self) -> Dict[Tuple[str, str], List[Tuple[str, N.Call]]]:
         out: Dict[Tuple[str, str], List[Tuple[str, N.Call]]] = {}
